@@ -236,6 +236,22 @@ func cmdCheck(args []string) {
 			"solver_status": o.Status, "solver": o.Solver, "solver_output": truncate(o.Output, 4000),
 		}
 		suffix := " no-failing-input-found"
+		if o.Status != "sat" && panicKinds[o.Kind] {
+			// the quantified background facts keep the solvers from answering `sat`;
+			// look for a candidate input without them and let the replay on the real
+			// code decide whether it is a genuine failing input
+			if out, ok := modelWithoutQuantifiers(o, work, seed); ok {
+				rep["model_search"] = "model found with quantified assumptions dropped (candidate only; validated by the replay)"
+				o.Output = out
+				rep["model"] = parseModel(o)
+				if ok, detail := tryReplay(prog, o, rep); ok {
+					suffix = ""
+					rep["replay"] = detail
+				} else {
+					rep["replay"] = detail
+				}
+			}
+		}
 		if o.Status == "sat" {
 			rep["model"] = parseModel(o)
 			if ok, detail := tryReplay(prog, o, rep); ok {
@@ -345,43 +361,100 @@ func truncate(s string, n int) string {
 	return s
 }
 
-// parseModel pairs the get-value answer with the model variable names.
+// parseModel pairs the get-value answer (a list of (term value) pairs, in the
+// order asked) with the model variable names.
 func parseModel(o *Obligation) map[string]string {
 	out := map[string]string{}
 	text := o.Output
-	i := strings.Index(text, "(")
+	i := strings.Index(text, "((")
 	if i < 0 {
 		return out
 	}
-	for _, mv := range o.VC.modelVars {
-		// find "(<term> <value>)"
-		key := "(" + mv.Term + " "
-		j := strings.Index(text, key)
-		if j < 0 {
-			continue
+	text = text[i+1:] // inside the outer list
+	k := 0
+	pos := 0
+	for k < len(o.VC.modelVars) {
+		// next pair
+		for pos < len(text) && text[pos] != '(' {
+			if text[pos] == ')' {
+				return out
+			}
+			pos++
 		}
-		rest := text[j+len(key):]
-		// value ends at the matching close paren
-		depth := 0
-		end := -1
-		for k := 0; k < len(rest); k++ {
-			if rest[k] == '(' {
+		if pos >= len(text) {
+			break
+		}
+		// matching close of the pair
+		depth, end := 0, -1
+		for j := pos; j < len(text); j++ {
+			if text[j] == '(' {
 				depth++
-			} else if rest[k] == ')' {
+			} else if text[j] == ')' {
+				depth--
 				if depth == 0 {
-					end = k
+					end = j
 					break
 				}
-				depth--
 			}
 		}
-		if end >= 0 {
-			out[mv.Name] = strings.TrimSpace(rest[:end])
+		if end < 0 {
+			break
 		}
+		pair := text[pos+1 : end]
+		// the value is the last top-level element of the pair
+		d := 0
+		split := -1
+		for j := len(pair) - 1; j >= 0; j-- {
+			c := pair[j]
+			if c == ')' {
+				d++
+			} else if c == '(' {
+				d--
+			} else if (c == ' ' || c == '\n') && d == 0 {
+				split = j
+				break
+			}
+			if d == 0 && c == '(' {
+				split = j - 1
+				break
+			}
+		}
+		if split >= 0 {
+			out[o.VC.modelVars[k].Name] = strings.TrimSpace(pair[split+1:])
+		}
+		k++
+		pos = end + 1
 	}
 	return out
 }
 
-func tryReplay(prog *Prog, o *Obligation, rep map[string]interface{}) (bool, string) {
-	return false, "replay harness not available for this obligation shape"
+
+// modelWithoutQuantifiers re-runs a failed obligation with every quantified
+// assertion removed and returns the solver output if it is `sat`.
+func modelWithoutQuantifiers(o *Obligation, work string, seed int) (string, bool) {
+	var gv []string
+	for _, mv := range o.VC.modelVars {
+		gv = append(gv, mv.Term)
+	}
+	prelude := preludeText + strings.Join(o.VC.extraDecls, "\n") + "\n"
+	text := o.Script.Render(prelude, o.Pos, o.Goal, gv)
+	var keep []string
+	lines := strings.Split(text, "\n")
+	for i, l := range lines {
+		// the goal itself (last assert) is kept even if quantified
+		isGoal := strings.HasPrefix(l, "(assert (not ") && i >= len(lines)-5
+		if strings.HasPrefix(l, "(assert") && (strings.Contains(l, "(forall ") || strings.Contains(l, "(exists ")) && !isGoal {
+			continue
+		}
+		keep = append(keep, l)
+	}
+	file := filepath.Join(work, "qf_"+sanitize(o.Name)+".smt2")
+	if err := os.WriteFile(file, []byte(strings.Join(keep, "\n")), 0o644); err != nil {
+		return "", false
+	}
+	r := race(file, 10, seed, "z3-new")
+	if r.status == "sat" {
+		return r.output, true
+	}
+	return "", false
 }
